@@ -106,6 +106,8 @@ def main():
     for up, pre, strip, path, q in itertools.product(UPSTREAMS, PREFIXES, (True, False), PATHS, QUERIES):
         cases.append((up, pre, strip, "gemini://front.example" + path + q))
     tried = 0
+    if not p.get("deep") and p.get("obligation") == "__bounded__":
+        cases = cases[:2] + cases[2::5]          # the quick tier samples the product; the thorough tier runs all of it
     for (up, pre, strip, url) in cases:
         for behaviour in ("ok", "timeout", "conn", "lookup", "boom"):
             if behaviour != "ok" and tried > 400:
